@@ -106,8 +106,10 @@ class Sym:
         self.trace = []
         self.recursion_guard = False
         self.summarise_recursion = True
+        self._loop_cache = {}
         self.active = []
         self.concrete_loops = False
+        self.loop_cut = None        # bounded exploration: drop (do not refuse) iterations beyond this count
 
     # ------------------------------------------------------------------ entry
     def run(self, fid, this=None, args=None, state=None):
@@ -329,7 +331,10 @@ class Sym:
         k = s.get('k')
         if k == 'compound':
             states = [(st, None)]
+            declared = []
             for c in s['b']:
+                if c.get('k') == 'decl':
+                    declared.extend((v['id'], v.get('t', '')) for v in c.get('vars', []))
                 new = []
                 for s1, sig in states:
                     if sig is not None or s1.throw is not None:
@@ -339,7 +344,7 @@ class Sym:
                 states = new
                 if len(states) > self.max_paths:
                     raise Unsupported('too many paths')
-            return states
+            return self.leave_scope(declared, states) if declared else states
         if k == 'return':
             if 'e' not in s or s['e'] is None:
                 return [(st, ('return', None))]
@@ -399,10 +404,44 @@ class Sym:
             return self.exec_while(s, st)
         if k == 'for':
             return self.exec_for(s, st)
-        if k in ('do', 'switch', 'try', 'otherstmt', 'break', 'continue', 'case', 'default'):
+        if k == 'break':
+            return [(st, 'break')]
+        if k == 'continue':
+            return [(st, 'continue')]
+        if k in ('do', 'switch', 'try', 'otherstmt', 'case', 'default'):
             raise Unsupported(f'statement {k} at line {s.get("ln")}')
         # expression statement
         return [(s1, None) for s1, _v in self.ev(s, st)]
+
+    def leave_scope(self, declared, states):
+        """Run the user-provided destructors of the block's local objects (reverse order of declaration) on every
+        path that leaves the block normally or by return/break/continue (guards that restore state on scope exit)."""
+        dtors = []
+        for vid, t in reversed(declared):
+            cls = t.replace('const ', '').replace('(anonymous namespace)', '(anon)').strip()
+            r = self.F.rec.get(cls)
+            if r is None or not r.get('user_dtor'):
+                continue
+            d = [f for f in self.F.fns_in(cls) if f.get('dtor') and not f.get('implicit') and f.get('body') is not None]
+            if d:
+                dtors.append((vid, d[0]))
+        if not dtors:
+            return states
+        out = []
+        for st, sig in states:
+            cur = [st]
+            if st.throw is None:
+                for vid, d in dtors:
+                    nxt = []
+                    for s1 in cur:
+                        v = s1.env.get(('v', vid))
+                        if s1.throw is None and isinstance(v, tuple) and v and v[0] == 'obj' and v[1] in s1.heap:
+                            nxt.extend(s2 for s2, _v in self.call_body(d, v, [], s1))
+                        else:
+                            nxt.append(s1)
+                    cur = nxt
+            out.extend((s1, sig) for s1 in cur)
+        return out
 
     def exec_while(self, s, st, bound=12):
         """Loop whose condition is decidable in the current (concrete fragment) state; iterations are bounded."""
@@ -410,6 +449,8 @@ class Sym:
         work = [(st, 0)]
         while work:
             s0, n = work.pop()
+            if self.loop_cut is not None and n > self.loop_cut:
+                continue
             if n > bound * (1 if self.concrete_loops else 40):
                 raise Unsupported('loop bound exceeded')
             for s1, c in self.ev(s['c'], s0):
@@ -431,10 +472,16 @@ class Sym:
                     out.append((s1, None))
                     continue
                 for s3, sig in self.exec(s['b'], s1):
-                    if sig is not None and sig[0] == 'return' or s3.throw is not None:
+                    if (isinstance(sig, tuple) and sig[0] == 'return') or s3.throw is not None:
                         out.append((s3, sig))
                     elif sig == 'break':
                         out.append((s3, None))
+                    elif s.get('inc') is not None:
+                        for s4, _sig in self.exec(s['inc'], s3):
+                            if s4.throw is not None:
+                                out.append((s4, None))
+                            else:
+                                work.append((s4, n + 1))
                     else:
                         work.append((s3, n + 1))
         return out
@@ -443,8 +490,7 @@ class Sym:
         pre = [st]
         if s.get('init') is not None:
             pre = [s1 for s1, _sig in self.exec(s['init'], st)]
-        body = {'k': 'compound', 'b': [s['b']] + ([s['inc']] if s.get('inc') is not None else [])}
-        loop = {'k': 'while', 'c': s.get('c') or {'k': 'lit', 'lt': 'bool', 'cv': '1'}, 'b': body, 'ln': s.get('ln')}
+        loop = {'k': 'while', 'c': s.get('c') or {'k': 'lit', 'lt': 'bool', 'cv': '1'}, 'b': s['b'], 'inc': s.get('inc'), 'ln': s.get('ln')}
         out = []
         for s0 in pre:
             out.extend(self.exec_while(loop, s0))
@@ -475,6 +521,62 @@ class Sym:
             st.conds.append((('noelem', r, s.get('ln')), True))
             out.append((st, None))
         return out
+
+    @staticmethod
+    def whole_range(first, last):
+        """The container X when (first, last) are begin/end of X (free or member form), else None."""
+        def ends(t, which):
+            if isinstance(t, tuple) and t and t[0] == 'call':
+                nm = fn_simple(t[1])
+                if nm in which:
+                    if t[2] is not None and not t[3]:
+                        return t[2]
+                    if t[2] is None and len(t[3]) == 1:
+                        return t[3][0]
+            return None
+        a, b = ends(first, ('begin', 'cbegin')), ends(last, ('end', 'cend'))
+        return a if a is not None and a == b else None
+
+    def search_summary(self, e, callee, args, st, negate=False):
+        """std::find_if over a whole container with a predicate of the repository: the same summary as the
+        range-for search loop -- some element satisfies the predicate and is designated by the result, or no
+        element does and the result is the end."""
+        first, last, pred = args
+        r = self.whole_range(first, last)
+        if r is None or not (isinstance(pred, tuple) and pred and pred[0] == 'obj' and pred[1] in st.heap):
+            return None
+        pcls = st.heap[pred[1]].cls
+        ops = [f for f in self.F.fns_in(pcls) if f['name'] == 'operator()' and len(f['params']) == 1]
+        if len(ops) != 1:
+            return None
+        ptr_iter = (callee.get('ret') or '').rstrip().endswith('*')
+        elem = ('elem', r)
+        s1 = st.fork()
+        neff = len(s1.effects)
+        caps = st.heap[pred[1]].tag if ops[0].get('lambda_call') else None
+        outs = []
+        fall = False
+        for s2, v in self.call_body(ops[0], pred, [elem], s1, captures=caps):
+            if s2.throw is not None:
+                outs.append((s2, None))
+                continue
+            if len(s2.effects) != neff:
+                raise Unsupported(f'search predicate with effects at line {e.get("ln")}')
+            t = self.truth(v, s2)
+            if negate and t is not None:
+                t = not t
+            if t is None:
+                s2.conds.append((v, not negate))
+                t = True
+                fall = True
+            if t:
+                outs.append((s2, ('addr', elem) if ptr_iter else ('iter', elem)))
+            else:
+                fall = True
+        if fall or not outs:
+            st.conds.append((('noelem', r, e.get('ln')), True))
+            outs.append((st, last))
+        return outs
 
     # --------------------------------------------------------------- truth
     def truth(self, c, st):
@@ -520,6 +622,10 @@ class Sym:
         nonnull = ('obj', 'addr')
         if (a[0] in nonnull and b == NULL) or (b[0] in nonnull and a == NULL):
             return False
+        for x, y in ((a, b), (b, a)):
+            if x[0] in ('addr', 'iter') and isinstance(x[1], tuple) and x[1] and x[1][0] == 'elem' \
+                    and self.whole_range(('call', 'begin()', x[1][1], ()), y) == x[1][1]:
+                return False
         if a[0] == 'obj' and b[0] == 'obj':
             return a[1] == b[1]
         # an object constructed during this evaluation is distinct from anything that existed before it
@@ -556,6 +662,8 @@ class Sym:
             return self.simp(t[1][1])
         if t[0] == 'un' and t[1] == '!' and t[2][0] == 'un' and t[2][1] == '!':
             return t[2][2]
+        if t[0] == 'un' and t[1] == '!' and t[2][0] == 'op' and t[2][1] in ('==', '!='):
+            return ('op', '!=' if t[2][1] == '==' else '==', t[2][2], t[2][3])
         return t
 
     # --------------------------------------------------------------- expressions
@@ -662,7 +770,7 @@ class Sym:
     def note_deref(self, st, ptr, e):
         if isinstance(ptr, tuple) and ptr and ptr[0] in ('addr', 'obj'):
             return
-        st.derefs.append((ptr, e.get('ln'), len(st.conds), st.envs[-1].get('__fn__')))
+        st.derefs.append((ptr, e.get('ln'), len(st.conds), st.envs[-1].get('__fn__'), len(st.effects)))
 
     def ev_cast(self, e, st):
         ck = e.get('ck')
@@ -952,6 +1060,8 @@ class Sym:
         raise Unsupported('bound member function')
 
     def ev_other(self, e, st):
+        if e.get('cls') == 'CXXPseudoDestructorExpr':
+            return [(st, ('sym', 'pseudo-destructor'))]
         raise Unsupported(f'expression class {e.get("cls")} at line {e.get("ln")}')
 
     def ev_typeid(self, e, st):
@@ -1037,6 +1147,10 @@ class Sym:
         r = self.intrinsic(e, callee, recv, args, st)
         if r is not None:
             return r
+        if name and name.startswith('~') and recv is not None:
+            st.effects.append(('dtor', fid, recv))
+        if name in ('operator delete', 'operator delete[]', 'free') and recv is None and args:
+            st.effects.append(('release', fid, args[0]))
         target = fid
         if e.get('dyn') and callee.get('virtual'):
             dc = self.dyn_class(recv, st)
@@ -1082,7 +1196,21 @@ class Sym:
         caps = None
         if f.get('lambda_call') and recv is not None and recv[0] == 'obj' and recv[1] in st.heap:
             caps = st.heap[recv[1]].tag
+        if not self.concrete_loops and self.loops_on_data(f) and (target.endswith(' const') and recv is not None):
+            # a const member function that iterates over data (a hand-written size(), a search by position): it cannot
+            # change the object; its result is an observation named by the call, like that of a library function
+            t = ('call', target, recv, tuple(args))
+            n = sum(1 for e in st.effects if (e[0] == 'emplace' and e[2] == recv) or (e[0] == 'call' and e[2] == recv and _is_mutator(e[1])))
+            return [(st, ('after', n, t) if n else t)]
         return self.call_body(f, recv, args, st, captures=caps)
+
+    def loops_on_data(self, f):
+        """Does the body contain a while/for/do loop (range-for searches and the rest are handled by the evaluator)?"""
+        c = self._loop_cache.get(f['id'])
+        if c is None:
+            c = any(n.get('k') in ('while', 'for', 'do') for n in _walk(f.get('body')))
+            self._loop_cache[f['id']] = c
+        return c
 
     def havoc_out_args(self, fid, args, st):
         """An unresolved virtual call may write through its non-const reference/pointer arguments: an object
@@ -1228,6 +1356,18 @@ class Sym:
                 return [(st, st.last_emplaced[recv])]
             if name == 'operator*' and recv is not None and recv[0] == 'iter':
                 return [(st, recv[1])]
+            if name in ('operator==', 'operator!=') and len(args) + (recv is not None) == 2:
+                a, b = ([recv] + list(args)) if recv is not None else args
+                def iterish(t):
+                    return isinstance(t, tuple) and t and (t[0] == 'iter' or (t[0] == 'call' and fn_simple(t[1]) in ('begin', 'end', 'cbegin', 'cend', 'before_begin')))
+                if iterish(a) and iterish(b) and (a[0] == 'iter' or b[0] == 'iter' or a == b):
+                    eq = True if a == b else self.same(a, b, st)
+                    if eq is not None:
+                        return [(st, ('k', int(eq if name == 'operator==' else not eq), 'bool'))]
+            if name in ('find_if', 'find_if_not') and recv is None and len(args) == 3:
+                r = self.search_summary(e, callee, args, st, negate=(name == 'find_if_not'))
+                if r is not None:
+                    return r
             if name == 'operator=' and recv is not None:
                 # assignment on a standard-library object (iterator, ...): rebind
                 le = strip_casts(e.get('obj') or {})
@@ -1319,6 +1459,57 @@ class Sym:
             st.contents.setdefault(recv, []).append(o)
             return pre + [(st, ('addr', o))]
         raise Unsupported(f'make_node initialiser form {init.get("k")}')
+
+
+def fn_qname(fid):
+    """Qualified name of a function id (drop the parameter list and cv-qualifier)."""
+    s = fid
+    for suf in (' const &&', ' &&', ' const'):
+        if s.endswith(suf):
+            s = s[:-len(suf)]
+    if not s.endswith(')'):
+        return s
+    depth = 0
+    for i in range(len(s) - 1, -1, -1):
+        if s[i] == ')':
+            depth += 1
+        elif s[i] == '(':
+            depth -= 1
+            if depth == 0:
+                return s[:i]
+    return s
+
+
+def fn_simple(fid):
+    """Unqualified name of a function id, template arguments stripped (operator names kept whole)."""
+    q = fn_qname(fid)
+    # cut at the last top-level '::'
+    depth = 0
+    cut = 0
+    i = 0
+    while i < len(q):
+        ch = q[i]
+        if ch in '<(':
+            # `operator<`, `operator<=`, `operator()` are names, not brackets
+            if q[:i].endswith('operator') or q[:i].endswith('operator<') or q[:i].endswith('operator('):
+                i += 1
+                continue
+            depth += 1
+        elif ch in '>)':
+            if q[:i].endswith('operator') or q[:i].endswith('operator-') or q[:i].endswith('operator>') or q[:i].endswith('operator('):
+                i += 1
+                continue
+            depth -= 1
+        elif ch == ':' and depth == 0 and q[i:i + 2] == '::':
+            cut = i + 2
+            i += 1
+        i += 1
+    name = q[cut:]
+    if not name.startswith('operator') and '<' in name:
+        name = name[:name.index('<')]
+    elif name.startswith('operator') and name.endswith('>') and '<' in name[8:] and not name.startswith(('operator<', 'operator>', 'operator->')):
+        name = name[:name.index('<', 8)]
+    return name
 
 
 def contracts_free_effect(fid):
